@@ -315,7 +315,10 @@ pub fn c02_strategy(transports: BoxedStrategy<Transport>) -> BoxedStrategy<ConvC
                     _ => (Framing::None, None),
                 };
                 let method = if matches!(framing, Framing::None) { method } else { "POST".to_string() };
-                let mut r = build_req(i as u32, method, path, version, headers, framing, also_cl, mask as usize, mask, conn, false);
+                // an expectation is a header field like any other in what the application is shown,
+                // whatever the version and whether or not a body follows
+                let expect = (mask >> 4) % 5 == 0;
+                let mut r = build_req(i as u32, method, path, version, headers, framing, also_cl, mask as usize, mask, conn, expect);
                 // absolute-form targets are delivered verbatim too
                 r.target_prefix = ["", "", "", "", "http://example.com", "http://h:8080", "https://user@host.example", "HTTP://EXAMPLE.COM:80"][(mask as usize >> 27) % 8].to_string();
                 conv.reqs.push(r);
@@ -471,7 +474,10 @@ pub fn c09_strategy_p(max_len: usize, transports: BoxedStrategy<Transport>, with
                     // now and then the body is announced with an expectation; the client sends it without
                     // waiting, whether or not the application ever asks for it
                     let expect = (mask >> 28) % 4 == 0;
-                    conv.reqs.push(build_req(id, "POST".into(), "/b".into(), version, headers, framing, None, mask as usize, mask, conn, expect));
+                    // a chunked request may carry a Content-Length as well (too small, too large, or the
+                    // length of the decoded body): the chunks alone say where it ends
+                    let also_cl = if matches!(framing, Framing::Chunked { .. }) && (mask >> 9) % 4 == 0 { Some([0usize, 5, framing_body_len(&framing), 100_000][(mask as usize >> 11) % 4]) } else { None };
+                    conv.reqs.push(build_req(id, "POST".into(), "/b".into(), version, headers, framing, also_cl, mask as usize, mask, conn, expect));
                     progs.push(Prog { read, finish });
                 } else {
                     conv.reqs.push(sentinel(id));
